@@ -275,14 +275,28 @@ HOSTILE_TEXT = [
     "߿ࠀ￿",
 ]
 ATTRS = ["cn", "objectClass", "sAMAccountName", "1.2.840.113556.1.4.803", "cn;lang-en", "o-0", "0.9.2342"]
+# RFC 4511 4.5.1.8 attribute selectors with a special meaning; they travel as ordinary strings
+SPECIAL_ATTRS = ["1.1", "*", "+"]
+# every result code RFC 4511 appendix A names (sessions must treat them alike, save 14 in a bind response)
+RFC_RC = [0, 1, 2, 3, 4, 5, 6, 7, 8, 10, 11, 12, 13, 14, 16, 17, 18, 19, 20, 21, 32, 33, 34, 36, 48, 49, 50, 51, 52, 53, 54,
+          64, 65, 66, 67, 68, 69, 71, 80]
 BOUNDARY_INTS = [0, 1, 2, 3, 127, 128, 255, 256, 32767, 32768, 65535, 65536, 2**31 - 1, 2**31, 2**32, 2**40, 2**63, 2**64 + 1]
 NEG_INTS = [-1, -128, -129, -256, -32768, -65536, -(2**31), -(2**31) - 1, -(2**40), -(2**63)]
 KNOWN_RC = [0, 1, 2, 3, 4, 10, 14, 32, 49, 53, 80]
 UNKNOWN_RC = [9, 15, 22, 35, 81, 118, 127, 128, 255, 256, 4096, 16654, 2**31 - 1]
 
 
+def g_long_text(rng: random.Random) -> bytes:
+    """Text of 1-3 KiB mixing 1-4 byte characters (length limits, truncation at fixed byte offsets)."""
+    unit = rng.choice(["\u00e9", "a\u00e9", "\u4e2d", "ab\u4e2d", "\U0001f600", "x\U0001f600", "\u00e9\u4e2d\U0001f600"])
+    n = rng.choice([1000, 1023, 1024, 1025, 1500, 3000])
+    return B((unit * (n // len(unit.encode()) + 1)))
+
+
 def g_text(rng: random.Random) -> bytes:
     r = rng.random()
+    if r < 0.012:
+        return g_long_text(rng)
     if r < 0.55:
         return B(rng.choice(HOSTILE_TEXT[:7] + ATTRS))
     if r < 0.7:
@@ -337,7 +351,10 @@ def g_cred(rng: random.Random):
 
 
 def g_attr(rng: random.Random) -> bytes:
-    return B(rng.choice(ATTRS)) if rng.random() < 0.85 else g_text(rng)
+    r = rng.random()
+    if r < 0.12:
+        return B(rng.choice(SPECIAL_ATTRS))
+    return B(rng.choice(ATTRS)) if r < 0.87 else g_text(rng)
 
 
 def g_filter(rng: random.Random, depth: int):
@@ -376,7 +393,8 @@ def deep_filter(depth: int):
 
 
 def g_result(rng: random.Random):
-    code = rng.choice(KNOWN_RC) if rng.random() < 0.7 else rng.choice(UNKNOWN_RC + NEG_INTS[:3])
+    r = rng.random()
+    code = rng.choice(KNOWN_RC) if r < 0.55 else rng.choice(RFC_RC) if r < 0.7 else rng.choice(UNKNOWN_RC + NEG_INTS[:3])
     r = rng.random()
     refs = None if r < 0.6 else ([] if r < 0.75 else [g_text(rng) for _ in range(rng.randint(1, 3))])
     return [code, g_text(rng), g_text(rng), opt(refs)]
